@@ -278,9 +278,9 @@ OPTS = {'quick': {'time_budget': 60}, 'thorough': {'time_budget': 900}}
 META = {
     'explanation': "C17: the same symbolic matrix (every sparsity pattern) encoded in 13 accepted input forms (dense array, nested lists, "
                    "triples with/without explicit zeros, dict, list of arrays / dicts / sparse rows, CSR (also unsorted with a stored zero), CSC, COO, COO "
-                   "with duplicate entries) must construct tables holding exactly the described values and comparing equal to the dense construction; "
+                   "with duplicate entries) must construct tables holding exactly the described values and comparing equal to the dense construction, and keep holding them after the caller overwrites every numeric buffer it passed in; "
                    "from_adjacency on record lists with symbolic values (text holes) must yield the per-pair sums; every malformed combination from the menu "
-                   "(duplicate ids anywhere, too few/many ids, metadata too short/long/non-mapping/all-falsy) must raise TableException. (CrossHair) parse_uc / from-uc on "
+                   "(duplicate ids anywhere, too few/many ids, metadata too short/long/empty/non-mapping/all-falsy) must raise TableException. (CrossHair) parse_uc / from-uc on "
                    "record lists chosen by symbolic selectors (record type, query id, target id, interleaved comment/blank lines) against the counting specification.",
     'encoded': {'biom/parse.py': ['parse_uc'], 'biom/cli/uc_processor.py': ['_from_uc', '_id_map_from_fasta'],
                 'biom/table.py': ['__init__', '_to_sparse', 'coo_arrays_to_sparse', 'list_list_to_sparse', 'nparray_to_sparse',
